@@ -121,19 +121,29 @@ def jacobi_svd_contract(eng, scalar="d", symmetric_psd=False, pre=None, post=Non
                 break
         size = t.size if t is not None else 256
         eng.memset(st, this, 0, size)
-        U = [[SV(eng.fresh("svdU", z3.RealSort())) for _ in range(k)] for _ in range(rows)]
-        V = [[SV(eng.fresh("svdV", z3.RealSort())) for _ in range(k)] for _ in range(cols)]
+        def ortho2(name):
+            # every 2x2 orthogonal matrix is [[c, -e s], [s, e c]] with c^2 + s^2 = 1, e = +-1: two unknowns and a sign
+            # instead of four unknowns and six equations
+            c, s_, e = (eng.fresh(name + x, z3.RealSort()) for x in ("c", "s", "e"))
+            st.assume(eng.mark_def(z3.And(c * c + s_ * s_ == 1, z3.Or(e == 1, e == -1))))
+            return [[SV(c), SV(-e * s_)], [SV(s_), SV(e * c)]]
+        pU = rows == 2 and k == 2 and getattr(eng, "svd_param2", True)
+        pV = cols == 2 and k == 2 and getattr(eng, "svd_param2", True)
+        U = ortho2("svdU") if pU else [[SV(eng.fresh("svdU", z3.RealSort())) for _ in range(k)] for _ in range(rows)]
+        V = ortho2("svdV") if pV else [[SV(eng.fresh("svdV", z3.RealSort())) for _ in range(k)] for _ in range(cols)]
         S = [SV(eng.fresh("svdS", z3.RealSort())) for _ in range(k)]
         for i in range(k):
             for j in range(i, k):
-                st.assume(sum((U[r][i].e * U[r][j].e for r in range(rows)), RV(0)) == (1 if i == j else 0))
-                st.assume(sum((V[r][i].e * V[r][j].e for r in range(cols)), RV(0)) == (1 if i == j else 0))
+                if not pU:
+                    st.assume(sum((U[r][i].e * U[r][j].e for r in range(rows)), RV(0)) == (1 if i == j else 0))
+                if not pV:
+                    st.assume(sum((V[r][i].e * V[r][j].e for r in range(cols)), RV(0)) == (1 if i == j else 0))
         # square factors: rows are orthonormal too (left inverse = right inverse; stated to spare the solver the derivation)
-        if rows == k:
+        if rows == k and not pU:
             for i in range(rows):
                 for j in range(i, rows):
                     st.assume(sum((U[i][c2].e * U[j][c2].e for c2 in range(k)), RV(0)) == (1 if i == j else 0))
-        if cols == k:
+        if cols == k and not pV:
             for i in range(cols):
                 for j in range(i, cols):
                     st.assume(sum((V[i][c2].e * V[j][c2].e for c2 in range(k)), RV(0)) == (1 if i == j else 0))
